@@ -799,6 +799,12 @@ class WorkflowDatabaseManager:
         """Recover public database from private database."""
         if self.pub_dao.n_tries >= self.pub_dao.MAX_TRIES:
             self.copy_pri_to_pub()
+            # The copy already holds the writes that could not be made to
+            # the public database: do not apply them again on top of it.
+            for table in self.pub_dao.tables.values():
+                table.delete_queues.clear()
+                table.insert_queue.clear()
+                table.update_queues.clear()
             LOG.warning(
                 f"{self.pub_dao.db_file_name}: recovered from "
                 f"{self.pri_dao.db_file_name}")
